@@ -208,6 +208,7 @@ func ruleOnce(c *Ctx) {
 			})
 		}
 		if cOK && dOK {
+			var feasAround map[*Node]bool
 			// Client state is modified only by the Start that launches: every store
 			// to a field of the Client itself (not of its config) in Start lies
 			// behind the once-flag's unset edge. A store in front of it is repeated
@@ -238,6 +239,14 @@ func ruleOnce(c *Ctx) {
 						continue // c.config.X = ...: the caller's configuration, not client state
 					}
 					behind := g.OnlyViaEdge(n, func(e *Edge) bool { return e == cd.unset })
+					if !behind {
+						// a gate that records its refusal in the error variable (an
+						// inlined helper): only feasible paths around the edge count
+						if feasAround == nil {
+							feasAround = p.FeasibleReach(f, []*Node{g.Entry}, nil, func(e *Edge) bool { return e == cd.unset })
+						}
+						behind = !feasAround[n]
+					}
 					construct := "store to " + p.FieldName(fv) + " only behind the launch gate"
 					if behind {
 						c.R.Hold("R-ONCE", p.Pos(as), f.Name, construct, "reachable only through the once-flag's unset edge", true)
